@@ -97,3 +97,9 @@ pub proof fn lemma_dedup_k_distinct(s: Seq<PlutusData>)
         }
     }
 }
+
+impl PlutusList {
+    /// value-level membership (PartialEq of PlutusData compares the decoded value only)
+    pub uninterp spec fn has_value(&self, x: PlutusData) -> bool;
+    #[verifier::external_body] pub fn contains(&self, x: &PlutusData) -> (r: bool) ensures r == self.has_value(*x) { unimplemented!() }
+}
